@@ -43,11 +43,11 @@ FAN = ["FlowDemux", "FIBDemux", "SimplePacketSwitch", "FairPacketSwitch"]
 
 
 def plan(tier):
-    return {"shards": 4, "timeout": 900} if tier == "quick" else {"shards": 16, "timeout": 3000}
+    return {"shards": 4, "timeout": 900} if tier == "quick" else {"shards": 16, "timeout": 3400}
 
 
 def ncases(tier):
-    return 1500 if tier == "quick" else 8000
+    return 1500 if tier == "quick" else 25000
 
 
 def gen_single(rng, nflows):
